@@ -223,7 +223,7 @@ class Engine:
         self.depth = 0
         self.unmodelled = set()
         self.nqueries = 0; self.ndecisions = 0; self.solver_s = 0.0; self.total_paths = 0; self.cut_at = None; self.path_queries = 0; self.stack = []
-        self.hash_order = 'insertion'; self.max_depth = 2000; self.capture_pc = False; self.captured = []; self.pre_len = None
+        self.hash_order = 'insertion'; self.max_depth = 2000; self.max_steps = None; self.capture_pc = False; self.captured = []; self.pre_len = None
 
     # ---------------- paths
     def reset_path(self, prefix=()):
@@ -231,6 +231,8 @@ class Engine:
         self.solver = z3.Solver(); self.pc = []
         self.depth = 0; self.stack = []; self.cut_at = None
         self.path_queries = 0; self.rng_memo = {}
+        self.max_path_steps_seen = max(getattr(self, "max_path_steps_seen", 0), getattr(self, "nsteps", 0) - getattr(self, "steps0", 0))
+        self.steps0 = getattr(self, "nsteps", 0)
 
     def explore(self, mk_inputs, run, limit=None, prefix=()):
         """DFS over all decision sequences extending `prefix` (re-execution from the decision prefix).
